@@ -2,6 +2,7 @@
 import ast
 
 from ..model import (AnalysisError, FUNC_TYPES, U, call_attr, call_name, dotted, enclosing, enclosing_function, guard_texts, short, walk_body, parent, const_str, kwarg)
+from .. import feat
 from ..util import params, find_calls, stmt_of, has_exit, syn_dominates, assigns_to
 from ..cfg import handler_names, is_catch_all
 from ..settype import Kinds, iterations, classify_sinks
@@ -34,8 +35,21 @@ def _ret_text(body):
     return U(rets[-1].value) if rets else None
 
 
-JOIN = "'(' + '%s'.join((expr(p) for p in b.exprs)) + ')'"
-NOT = "'(' + 'not ' + expr(b.query) + ')'"
+JOIN = "({'%s'.join((expr(p) for p in b.exprs))})"
+NOT = "(not {expr(b.query)})"
+
+
+def _ret_tmpl(body):
+    """Canonical template of the (unconditional) string returned by a branch, or the list of (conditions, template) when it depends on a test."""
+    rets = [r for r in body if isinstance(r, ast.Return)]
+    if not rets:
+        return None
+    t = feat.str_templates(rets[-1].value)
+    if t is None:
+        return None
+    if len(t) == 1 and not t[0][0]:
+        return t[0][1]
+    return t
 
 
 def _test_connective(repo, cls):
@@ -71,11 +85,11 @@ def r1_agreement(cx, mods):
     for cname in ("All", "Any"):
         key = "isinstance(b, %s)" % cname
         c = _test_connective(cx.repo, qb.cls(cname))
-        got = _ret_text(tbl[key]) if key in tbl else None
+        got = _ret_tmpl(tbl[key]) if key in tbl else None
         cx.require(c in conn and got == JOIN % conn[c], f, "%s: test() uses %s(...) and the generator joins the sub-expressions with '%s'" % (cname, c, conn.get(c, "?").strip()), construct="%s -> %s" % (key, got))
     key = "isinstance(b, Not)"
     c = _test_connective(cx.repo, qb.cls("Not"))
-    got = _ret_text(tbl[key]) if key in tbl else None
+    got = _ret_tmpl(tbl[key]) if key in tbl else None
     cx.require(c == "not" and got == NOT, f, "Not: test() negates and the generator emits 'not'", construct="%s -> %s" % (key, got))
     cx.require(_ret_text(tbl.get("b is TRUE", [])) == "' True '" and _ret_text(tbl.get("b is FALSE", [])) == "' False '", f, "the constants compile to the Python constants", construct="TRUE -> %s, FALSE -> %s" % (_ret_text(tbl.get("b is TRUE", [])), _ret_text(tbl.get("b is FALSE", []))))
     tt = qb.func("Boolean.test", "C20.R1")
@@ -85,10 +99,15 @@ def r1_agreement(cx, mods):
     ok = False
     if pb:
         env = dict((U(a.targets[0]), U(a.value)) for a in pb if isinstance(a, ast.Assign))
-        rets = [(sorted(guard_texts(r, stop=f)), U(r.value)) for r in ast.walk(ast.Module(body=pb, type_ignores=[])) if isinstance(r, ast.Return)]
+        rets = []
+        for r in ast.walk(ast.Module(body=pb, type_ignores=[])):
+            if isinstance(r, ast.Return):
+                g = set(guard_texts(r, stop=f))
+                for c, t in feat.str_templates(r.value) or [((), None)]:
+                    rets.append((g | set(c), t))
         plain = [t for g, t in rets if not any("CaselessPredicate" in x for x, p in g if p)]
         caseless = [t for g, t in rets if any("CaselessPredicate" in x for x, p in g if p)]
-        ok = env.get("env[func]") == "b.func" and env.get("env[args]") == "b.args" and plain == ["func + '(value, ' + '*' + args + ')'"] and caseless == ["func + '(value.lower(), ' + '*' + args + ')'"]
+        ok = env.get("env[func]") == "b.func" and env.get("env[args]") == "b.args" and plain == ["{func}(value, *{args})"] and caseless == ["{func}(value.lower(), *{args})"]
     cx.require(ok, f, "a leaf compiles to func(value, *args) with the predicate's own func/args (value lower-cased for the caseless leaf)", construct="Predicate branch of expr()")
     pt = qb.func("Predicate.test", "C20.R1")
     calls = [x for x in find_calls(pt.body) if U(x.func) == "self.func"]
@@ -120,14 +139,14 @@ def r1_agreement(cx, mods):
     for cname, base in (("_AllEntryQuery", "All"), ("_AnyEntryQuery", "Any")):
         key = "isinstance(b, %s)" % cname
         c = _test_connective(cx.repo, qi.cls(cname))
-        got = _ret_text(tbl2[key]) if key in tbl2 else None
+        got = _ret_tmpl(tbl2[key]) if key in tbl2 else None
         cx.require(c in conn and got == JOIN % conn[c], f2, "%s: inherited test() uses %s(...) and the entry-query generator joins with '%s'" % (cname, c, conn.get(c, "?").strip()), construct="%s -> %s" % (key, got))
     key = "isinstance(b, _NotEntryQuery)"
     c = _test_connective(cx.repo, qi.cls("_NotEntryQuery"))
-    got = _ret_text(tbl2[key]) if key in tbl2 else None
+    got = _ret_tmpl(tbl2[key]) if key in tbl2 else None
     cx.require(c == "not" and got == NOT, f2, "_NotEntryQuery: test() negates and the generator emits 'not'", construct="%s -> %s" % (key, got))
     env2 = dict((U(a.targets[0]), U(a.value)) for a in els2 if isinstance(a, ast.Assign))
-    cx.require(env2.get("env[func]") == "b.test" and _ret_text(els2) == "func + '(value)'", f2, "every other entry query compiles to a call of its own test()", construct="else: env[func] = b.test; return func + '(value)'")
+    cx.require(env2.get("env[func]") == "b.test" and _ret_tmpl(els2) == "{func}(value)", f2, "every other entry query compiles to a call of its own test()", construct="else: env[func] = b.test; return func + '(value)'")
     # bases of the entry-query connectives
     for cname, base in (("_AllEntryQuery", "All"), ("_AnyEntryQuery", "Any"), ("_NotEntryQuery", "Not")):
         c = qi.cls(cname)
@@ -176,6 +195,36 @@ def r2_raising(cx):
         cx.require(len(ex) == 1 and bool(rets) and U(rets[-1].value) == "env['predicate']", fn, "%s returns the generated function" % q, construct="six.exec_(func, env, env); return env['predicate']")
 
 
+def _pairs(fn):
+    """(target text, value node) of every simple or tuple-to-tuple assignment directly in the body of ``fn``."""
+    out = []
+    for a in walk_body(fn.body):
+        if isinstance(a, ast.Assign) and len(a.targets) == 1:
+            t = a.targets[0]
+            if isinstance(t, ast.Tuple) and isinstance(a.value, ast.Tuple) and len(t.elts) == len(a.value.elts):
+                out.extend((U(x), v, a) for x, v in zip(t.elts, a.value.elts))
+            else:
+                out.append((U(t), a.value, a))
+    return out
+
+
+def _match_shape(f):
+    """Names playing the roles in compile_queries.match: (first query, remaining queries, this level's matches) or None."""
+    ps = params(f)
+    if len(ps) != 2:
+        return None
+    qs, nodes = ps
+    pr = _pairs(f)
+    first = [t for t, v, a in pr if U(v) == "%s[0]" % qs]
+    rest = [t for t, v, a in pr if U(v) == "%s[1:]" % qs]
+    if len(first) != 1 or len(rest) != 1:
+        return None
+    res = [(t, v, a) for t, v, a in pr if isinstance(v, ast.ListComp) and len(v.generators) == 1 and U(v.generators[0].iter) == nodes]
+    if len(res) != 1:
+        return None
+    return first[0], rest[0], res[0]
+
+
 def r3_order(cx):
     cx.rule("C20.R3", "results are built in document order; roots are de-duplicated keeping the first occurrence", floor=6)
     qi = cx.repo.module(QI)
@@ -195,8 +244,11 @@ def r3_order(cx):
     mt = [n for n in cq.body if isinstance(n, FUNC_TYPES) and n.name == "match"]
     ok = False
     if mt:
-        res = [a for a in walk_body(mt[0].body) if isinstance(a, ast.Assign) and U(a.targets[0]) == "res"]
-        ok = len(res) == 1 and U(res[0].value) == "[n for n in nodes if q(n)]"
+        sh = _match_shape(mt[0])
+        if sh is not None:
+            q0, rest, (rname, lc, _a) = sh
+            g = lc.generators[0]
+            ok = U(lc.elt) == U(g.target) and [U(i) for i in g.ifs] == ["%s(%s)" % (q0, U(g.target))] and not g.is_async
     cx.require(ok, mt[0] if mt else cq, "a level keeps exactly the nodes satisfying the query, in input order", construct="res = [n for n in nodes if q(n)]")
     fl = qi.func("_flatten", "C20.R3")
     inner = [n for n in fl.body if isinstance(n, FUNC_TYPES)]
@@ -231,20 +283,34 @@ def r4_levels(cx):
         cx.unknown(cq, "no match() helper")
         return
     f = mt[0]
-    qd = dict((U(a.targets[0]), U(a.value)) for a in f.body if isinstance(a, ast.Assign))
-    cx.require(qd.get("q") == "qs[0]" and qd.get("qs") == "qs[1:]", f, "match takes the first query and keeps the rest for the next level", construct="q = qs[0]; qs = qs[1:]")
-    gc = [a for a in walk_body(f.body) if isinstance(a, ast.Assign) and U(a.targets[0]) == "gc"]
+    sh = _match_shape(f)
+    cx.require(sh is not None, f, "match takes the first query and keeps the rest for the next level", construct="q = qs[0]; qs = qs[1:]")
+    if sh is None:
+        return
+    q0, rest, (rname, lc, resdef) = sh
     rec = [r for r in walk_body(f.body) if isinstance(r, ast.Return) and isinstance(r.value, ast.Call) and call_name(r.value) == "match"]
-    ok = len(gc) == 1 and U(gc[0].value) == "list(chain.from_iterable((n.children for n in res)))" and len(rec) == 1 and [U(a) for a in rec[0].value.args] == ["qs", "gc"] \
-        and set(guard_texts(rec[0])) == set([("qs", True), ("res", True)])
+    ok = len(rec) == 1 and len(rec[0].value.args) == 2 and U(rec[0].value.args[0]) == rest
+    if ok:
+        gexpr = rec[0].value.args[1]
+        if isinstance(gexpr, ast.Name):
+            gd = [v for t, v, a in _pairs(f) if t == gexpr.id]
+            gexpr = gd[0] if len(gd) == 1 else gexpr
+        ok = U(gexpr) == "list(chain.from_iterable((n.children for n in %s)))" % rname and set(guard_texts(rec[0])) == set([(rest, True), (rname, True)]) and resdef.lineno < rec[0].lineno
     cx.require(ok, rec[0] if rec else f, "the next query runs on the children of this level's matches (only while queries and matches remain)", construct="gc = children of res; return match(qs, gc)")
-    last = [r for r in f.body if isinstance(r, ast.Return)]
-    cx.require(bool(last) and U(last[-1].value) == "res", last[-1] if last else f, "the last level's matches are the result", construct="return res")
+    last = [r for r in walk_body(f.body) if isinstance(r, ast.Return) and r not in rec]
+    cx.require(bool(last) and all(U(r.value) == rname for r in last), last[-1] if last else f, "the last level's matches are the result", construct="return res")
     qs = [a for a in cq.body if isinstance(a, ast.Assign) and U(a.targets[0]) == "queries"]
     cx.require(len(qs) == 1 and U(qs[0].value) == "[_desugar(q) for q in queries]", qs[0] if qs else cq, "every query is desugared, in order", construct=short(qs[0]) if qs else "?")
     ds = qi.func("_desugar", "C20.R4")
     lam = [n for n in walk_body(ds.body) if isinstance(n, ast.Lambda) and "name_query" in U(n)]
-    cx.require(len(lam) == 1 and U(lam[0].body) == "name_query(e) and aq(e)", lam[0] if lam else ds, "a tuple query matches iff the name test AND the attribute test hold", construct=short(lam[0]) if lam else "?")
+    conj = [U(n.body) for n in lam]
+    for n in ast.walk(ds):
+        if isinstance(n, FUNC_TYPES) and n is not ds and len(params(n)) == 1:
+            rr = [r for r in walk_body(n.body) if isinstance(r, ast.Return)]
+            if len(rr) == 1 and "name_query" in U(rr[0].value):
+                conj.append(U(rr[0].value).replace("(%s)" % params(n)[0], "(e)"))
+    aqd = [U(v) for t, v, a in _pairs(ds) if t == "aq"]
+    cx.require(conj == ["name_query(e) and aq(e)"] and aqd == ["attrs_query.to_pyfunc()"], lam[0] if lam else ds, "a tuple query matches iff the name test AND the attribute test hold", construct="%s" % conj)
     nq = dict((U(a.targets[0]), U(a.value)) for a in walk_body(ds.body) if isinstance(a, ast.Assign))
     cx.require(nq.get("name_query") == "_desugar_name(q[0])" and nq.get("attrs_query") == "_desugar_attrs(q[1:])", ds, "first element is the name query, the rest attribute queries", construct="%s" % nq)
     da = qi.func("_desugar_attrs", "C20.R4")
